@@ -75,6 +75,11 @@ type TextSpec struct {
 	// renders before they are registered and further renders afterwards); one
 	// fresh value per decoration.  Never part of the JSON form.
 	ext func() *textExt
+	// viewFix: a property's own harness completes the expected view (computed
+	// from the spec alone) for histories SpecView does not know: items whose
+	// declared sizes change between renders, items that are cells themselves.
+	// Never part of the JSON form.
+	viewFix func(*View)
 }
 
 // textExt: hooks of a property's own harness into the life of the wrapper.
@@ -829,6 +834,9 @@ func runText(ts TextSpec) textRun {
 	tr.view = ts.Table.SpecView()
 	specSizes(ts.Table, &tr.view)
 	longView(ts, &tr.view)
+	if ts.viewFix != nil {
+		ts.viewFix(&tr.view)
+	}
 	keys := map[string]bool{}
 	for _, c := range viewAllCells(tr.view) {
 		addLineKeys(keys, c.Text)
